@@ -73,7 +73,7 @@ def main():
         # 4: our checks
         for c in checks:
             t0 = time.time()
-            rcc, outc = sh([os.path.join(V, "check"), c, tier], cwd=V, env=dict(os.environ, VERIF_REPO=wt), timeout=6000)
+            rcc, outc = sh([os.path.join(V, "check"), c, tier], cwd=V, env=dict(os.environ, VERIF_REPO=wt, VERIF_EVIDENCE_DIR=os.path.join(V, ".build", "seed-evidence")), timeout=6000)
             viol = [l for l in outc.split("\n") if l.startswith("VIOLATION")]
             first = ""
             lines = outc.split("\n")
